@@ -161,6 +161,14 @@ def cases_chains(tier, seed):
         for at in (1, depth // 2):
             yield dict(kind='chain', depth=depth, fail='unknown-function', at=at)
     # the chain travels through function calls - lazy ones (IF, AND, OR, NOT evaluate the next cell INSIDE the function) and eager ones
+    for link in ('twice', 'diamond'):
+        for depth in (12, 22, 40):
+            for fail in ('unknown-function', 'cycle-at-end'):
+                yield dict(kind='chain', depth=depth, fail=fail, link=link)
+    # a failure at the end of a chain B whose every level first reads (successfully) a cell of a doubling chain A: A(k+1) = A(k) + A(k)
+    for depth in (10, 18, 26, 40):
+        for fail in ('unknown-function', 'cycle-at-end'):
+            yield dict(kind='shared', depth=depth, fail=fail)
     for link in ('if', 'if-else', 'not', 'and', 'sum', 'range'):
         for depth in (10, 20, 40):
             for fail in ('unknown-function', 'python-error', 'cycle-at-end'):
@@ -225,14 +233,38 @@ def _oracle_explicit(c):
     return True, 'ok', 'ok'
 
 
+def oracle_shared(c):
+    d = c['depth']
+    cells = {'A1': 1, 'B1': '=NOSUCHFUNCTION(1)' if c['fail'] == 'unknown-function' else f'=B{d}+1'}
+    for k in range(1, d):
+        cells[f'A{k + 1}'] = f'=A{k}+A{k}'
+        cells[f'B{k + 1}'] = f'=A{k}+B{k}'
+    r = run_child(dict(cells=cells, probes=[f'Sheet1!B{d}']), limit=30)
+    if not r.get('ok'):
+        return False, 'the failure is reported promptly', r.get('why')
+    o = r['res'][f'Sheet1!B{d}']
+    bound = 3000 + 600 * d + 10 * d * d
+    if o['kind'] != 'exception':
+        return False, f'an exception reporting the failure at depth {d}', o
+    if c['fail'] == 'cycle-at-end' and not o['cycle']:
+        return False, 'the exception reports a cycle', o
+    return (o['secs'] < 5 and o['msg_len'] <= bound), f'reported within 5 s with a message of at most {bound} characters (shared precedents are evaluated once per formula)', o
+
+
 def oracle_chains(c):
+    if c['kind'] == 'shared':
+        return oracle_shared(c)
     d = c['depth']
     at = c.get('at', d)
     cells = {}
     link = {'plus': '=A{n}+1', 'if': '=IF(TRUE,A{n},0)', 'if-else': '=IF(1>2,0,A{n}+1)', 'not': '=NOT(A{n})', 'and': '=AND(TRUE,A{n})',
-            'sum': '=SUM(A{n},1)', 'range': '=SUM(A{n}:A{n})+1'}[c.get('link', 'plus')]
+            'sum': '=SUM(A{n},1)', 'range': '=SUM(A{n}:A{n})+1',
+            # every level reads the level below twice (directly / through a second cell of its own level)
+            'twice': '=A{n}+A{n}', 'diamond': '=A{n}+B{n}'}[c.get('link', 'plus')]
     for i in range(1, d + 1):
         cells[f'A{i}'] = link.format(n=i + 1)
+        if c.get('link') == 'diamond':
+            cells[f'B{i}'] = f'=A{i + 1}*1' if i > 1 else '=1'
     leaf = {'unknown-function': '=NOSUCHFUNCTION(1)', 'python-error': '=VLOOKUP(1,1,1,TRUE)', 'cycle-at-end': f'=A{max(1, d)}+1'}[c['fail']]
     cells[f'A{at + 1}'] = leaf
     if at < d:
@@ -257,5 +289,5 @@ DRIVERS = [
            rule='every digraph on <= 3 cells and every digraph on 4 cells with <= 5 edges (self references, 2/3/4-cycles, every entry point, diamonds, repeated references), plus cycles closed through ranges / across sheets and an IF whose dead branch refers to itself; each evaluated in a child process with a 20 s / 3 GB limit',
            bound='<= 4 cells'),
     Driver('C06/B4.chains', cases_chains, oracle_chains, nchunks=8,
-           rule='dependency chains of depth 1..60 ending in an unknown function / a Python-level error / a cycle, failures half-way, and chains whose links go through IF / NOT / AND (lazy), SUM and one-cell ranges: time and message size of the report', bound='depth <= 60'),
+           rule='dependency chains of depth 1..60 ending in an unknown function / a Python-level error / a cycle, failures half-way, and chains whose links go through IF / NOT / AND (lazy), SUM and one-cell ranges, and chains on which every level reads the level below twice (shared precedents): time and message size of the report', bound='depth <= 60'),
 ]
